@@ -115,6 +115,12 @@ pub struct Case {
     /// around the simple validator)
     #[serde(default)]
     pub onchain: bool,
+    /// start-up allowlist scenario: the signer is built by HandlerBuilder (as vlsd builds it) with a
+    /// start-up allowlist holding one address D ("only used if node is new"); run-time edit (0 none,
+    /// 1 remove [D], 2 remove [D, absent], 3 remove [absent, D]); 0-2 restarts with the same
+    /// start-up configuration; then a delayed-output sweep (or justice sweep, by `anchors`) paying D
+    #[serde(default)]
+    pub startup: Option<(u8, u8)>,
 }
 
 fn dest_strat() -> impl Strategy<Value = Dest> {
@@ -192,6 +198,90 @@ fn revokeable_script(revocation_key: &PublicKey, delay: u16, delayed_key: &Publi
 
 pub struct C09;
 
+impl C09 {
+    /// Start-up allowlist scenario (see `Case::startup`).
+    fn run_startup(&self, case: &Case, edit: u8, restarts: u8, st: &mut CaseStats, ctx: &Ctx) -> Result<(), Violation> {
+        use crate::props::proto::{Negotiation, ProtoWorld};
+        let net = Network::Testnet;
+        let secp = bitcoin::secp256k1::Secp256k1::new();
+        let mk = |b: u8| Address::p2wpkh(&CompressedPublicKey(PublicKey::from_secret_key(&secp, &SecretKey::from_slice(&[b; 32]).unwrap())), net);
+        let (d, absent) = (mk(0x71), mk(0x72));
+        let (ed, eb) = (format!("address:{}", d), format!("address:{}", absent));
+        let mut pw = ProtoWorld::new_configured(WorldCfg::default_testnet(), 6, Negotiation::SignerCap, vec![ed.clone()], false);
+        let mut spec = ChanSpec::basic(1);
+        spec.anchors = case.anchors;
+        spec.outbound = case.outbound;
+        spec.holder_delay = case.holder_delay;
+        spec.cp_delay = case.cp_delay;
+        let ci = match pw.new_stub(&spec) {
+            Out::Ok(i) => i,
+            _ => return Ok(()),
+        };
+        if !pw.setup_chan(ci).is_ok() {
+            st.class("startup:setup-refused");
+            return Ok(());
+        }
+        let edit = edit % 4;
+        let node = pw.node().clone();
+        let r = match edit {
+            0 => Ok(()),
+            1 => node.remove_allowlist(&[ed.clone()]),
+            2 => node.remove_allowlist(&[ed.clone(), eb.clone()]),
+            _ => node.remove_allowlist(&[eb.clone(), ed.clone()]),
+        };
+        if r.is_err() {
+            st.class("startup:removal-refused");
+            return Ok(());
+        }
+        let restarts = restarts % 3;
+        for _ in 0..restarts {
+            if !pw.restart().is_ok() {
+                st.class("startup:restart-failed");
+                return Ok(());
+            }
+        }
+        let chan = &pw.chans[ci];
+        let height = pw.node().get_tracker().height();
+        let justice = case.anchors;
+        let (delay, redeem, secret) = if justice {
+            let cpoint = chan.cp.point(&secp, 3);
+            let keys = chan.cp_txkeys(&secp, &cpoint);
+            (chan.setup.holder_selected_contest_delay, revokeable_script(&keys.revocation_key.to_public_key(), chan.setup.holder_selected_contest_delay, &keys.broadcaster_delayed_payment_key.to_public_key()), Some(chan.cp.secret(3)))
+        } else {
+            let hpoint = chan.holder_point(&secp, 0);
+            let keys = chan.holder_txkeys(&secp, &hpoint);
+            (chan.setup.counterparty_selected_contest_delay, revokeable_script(&keys.revocation_key.to_public_key(), chan.setup.counterparty_selected_contest_delay, &keys.broadcaster_delayed_payment_key.to_public_key()), None)
+        };
+        let tx = Transaction {
+            version: Version(2),
+            lock_time: LockTime::from_consensus(height),
+            input: vec![TxIn { previous_output: OutPoint { txid: Txid::from_byte_array([7u8; 32]), vout: 0 }, script_sig: ScriptBuf::new(), sequence: Sequence(if justice { 0xffff_fffd } else { delay as u32 }), witness: Witness::new() }],
+            output: vec![TxOut { value: Amount::from_sat(40_000), script_pubkey: d.script_pubkey() }],
+        };
+        let id0 = chan.id0.clone();
+        let node = pw.node().clone();
+        let res = call(move || node.with_channel(&id0, |c| match &secret {
+            Some(s) => c.sign_justice_sweep(&tx, 0, s, &redeem, 50_000, &DerivationPath::master()),
+            None => c.sign_delayed_sweep(&tx, 0, 0, &redeem, 50_000, &DerivationPath::master()),
+        }));
+        let kname = if justice { "justice" } else { "delayed" };
+        st.class(format!("startup:{}:edit{}:restarts{}:{}", kname, edit, restarts, res.tag()));
+        st.sample = Some(json!({"startup": [edit, restarts], "kind": kname, "result": res.tag(), "err": res.err_msg()}));
+        if edit != 0 {
+            st.nontrivial_shape(("startup", edit, restarts, justice));
+            if res.is_ok() {
+                return ctx.report(st, Violation::new(
+                    format!("C09:sweep:{}:startup-allowlist:removed-destination-paid{}", kname, if restarts > 0 { "-after-restart" } else { "" }),
+                    format!("a destination removed from the allowlist at run time (edit {}) is paid by a signed {} sweep after {} restart(s) with the same start-up configuration (allowlist now {:?})", edit, kname, restarts, pw.node().allowlist().unwrap_or_default()),
+                ));
+            }
+        } else if res.is_ok() {
+            st.nontrivial_shape(("startup-control", restarts, justice));
+        }
+        Ok(())
+    }
+}
+
 impl Prop for C09 {
     type Case = Case;
     fn id(&self) -> &'static str {
@@ -227,12 +317,15 @@ impl Prop for C09 {
     }
     fn strategy(&self, _tier: Tier) -> BoxedStrategy<Case> {
         let delay = prop_oneof![Just(4u16), Just(6u16), Just(144u16), Just(2016u16), 4u16..2017];
-        (any::<bool>(), any::<bool>(), delay.clone(), delay, prop_oneof![1 => sweep_strat(), 1 => htlc_strat()], prop::bool::weighted(0.12), prop_oneof![5 => Just(0u8), 2 => 1u8..7], prop::bool::weighted(0.4))
-            .prop_map(|(anchors, outbound, holder_delay, cp_delay, req, carve_out, allow_edit, onchain)| Case { onchain, anchors, outbound, holder_delay, cp_delay, carve_out: carve_out && matches!(req, Req::Sweep { .. }), allow_edit: if matches!(req, Req::Sweep { .. }) { allow_edit } else { 0 }, req })
+        (any::<bool>(), any::<bool>(), delay.clone(), delay, prop_oneof![1 => sweep_strat(), 1 => htlc_strat()], prop::bool::weighted(0.12), prop_oneof![5 => Just(0u8), 2 => 1u8..7], prop::bool::weighted(0.4), prop_oneof![40 => Just(None), 1 => (0u8..4, 0u8..3).prop_map(Some)])
+            .prop_map(|(anchors, outbound, holder_delay, cp_delay, req, carve_out, allow_edit, onchain, startup)| Case { startup, onchain, anchors, outbound, holder_delay, cp_delay, carve_out: carve_out && matches!(req, Req::Sweep { .. }), allow_edit: if matches!(req, Req::Sweep { .. }) { allow_edit } else { 0 }, req })
             .boxed()
     }
 
     fn run(&self, case: &Case, st: &mut CaseStats, ctx: &Ctx) -> Result<(), Violation> {
+        if let Some((edit, restarts)) = case.startup {
+            return self.run_startup(case, edit, restarts, st, ctx);
+        }
         let net = Network::Testnet;
         let mut cfg = WorldCfg::default_testnet();
         if case.carve_out {
